@@ -1194,7 +1194,8 @@ class LagAWFreeze(LagAntiWindup):
 
         """
         LagAntiWindup.define(self)
-        self.y.e_str = f'(1 - {self.freeze.name}) * ({self.K.name} * {self.u.name} - {self.name}_y)'
+        self.y.e_str = f'(1 - {self.freeze.name}) * ' \
+                       f'({self.K.name} * {self.u.name} - {self.D.name} * {self.name}_y)'
 
 
 class LagRate(Block):
